@@ -32,7 +32,10 @@ func c08Scenarios(tier string) []*Scenario {
 			add(tr, "", RPC{Kind: "unary", Client: []string{"I"}, Handler: h})
 		}
 		// client-streaming: r responses, final status nil / non-nil, with and without metadata
-		for r := 0; r <= maxR; r++ {
+		for r := 0; r <= maxR+1; r++ {
+			if r > maxR && tr != "inproc" {
+				continue // one more surplus response in-process (cheap there)
+			}
 			for _, ret := range []string{"ret:ok", "ret:st:5"} {
 				for _, md := range []bool{false, true} {
 					h := []string{"r*"}
